@@ -1,11 +1,11 @@
 #!/bin/sh
 # tools/run_refactorings.sh [id ...]: apply each harmless refactoring to a scratch copy and run ALL checks; print the non-zero exits
-cd /verif
+V="$(cd "$(dirname "$0")/.." && pwd)"; cd "$V"
 IDS="$@"; [ -z "$IDS" ] && IDS=$(ls refactorings)
 PROPS="C01 C02 C03 C04 C05 C06 C07 C08 C09 C10 C11 C12 C13 C14 C15 C16 C18 C19 C20"
 for id in $IDS; do
   S=$(mktemp -d /tmp/ujvc-ref.XXXXXX); mkdir -p "$S/repo"; cp -r /repo/src "$S/repo/src"
-  ( cd "$S/repo" && patch -s -p1 < /verif/refactorings/$id/patch.diff ) || { echo "$id: PATCH FAILED"; rm -rf "$S"; continue; }
+  ( cd "$S/repo" && patch -s -p1 < $V/refactorings/$id/patch.diff ) || { echo "$id: PATCH FAILED"; rm -rf "$S"; continue; }
   out=""
   for pid in $PROPS; do
     UJVC_NO_REPLAY=1 UJVC_REPO_SRC="$S/repo/src" UJVC_EVID="$S/evid" ./check $pid > "$S/out.$pid" 2>&1; rc=$?
